@@ -464,7 +464,9 @@ class ParserText(ParserBase):
         try:
             value = self._parsable[self._parsed_length:]
             date_time = dateutil.parser.parse(six.ensure_text(value, self._encoding))
-        except ValueError as e:
+            if date_time.tzinfo is not None and date_time.utcoffset() is not None:
+                date_time.astimezone(dateutil.tz.UTC)
+        except (ValueError, OverflowError) as e:
             six.raise_from(InvalidValue(value, type(self), 'value'), e)
 
         self._parsed_values[name] = date_time
